@@ -220,6 +220,15 @@ def check_chain(types, gset, npts, res):
         co, mxdev, mxerr = n2p.rbcoords(rbb, verbose=0)
         if not np.allclose(co, pbs - refxyz, atol=1e-9 * sc):
             msgs.append("rbcoords does not recover the grid locations relative to the reference point")
+        # documented: nodes may be in any mixture of (local) coordinate systems -> same locations, no deviation
+        if rb.shape == want.shape:
+            co2, mxdev2, mxerr2 = n2p.rbcoords(want, verbose=0)
+            if not np.allclose(co2, pbs - refxyz, atol=1e-8 * sc):
+                i = int(np.argmax(np.abs(co2 - (pbs - refxyz)).max(axis=1)))
+                msgs.append("chain %s: rbcoords of local-frame rigid-body modes returns %s for grid %d (output system type %d), location relative to the reference is %s"
+                            % (types, co2[i].tolist(), truth[i][0], truth[i][1].typ, (pbs - refxyz)[i].tolist()))
+            elif mxdev2 > 1e-8 * sc:
+                msgs.append("rbcoords reports a deviation %.3g for exact rigid-body modes" % mxdev2)
     return msgs
 
 
